@@ -1,6 +1,7 @@
 from __future__ import annotations
 
 import ast
+import copy
 import builtins
 import collections
 import dataclasses
@@ -1363,6 +1364,18 @@ class _NameWildcardTransformer(ast.NodeTransformer):
         return wildcard
 
 
+def _copy_syntax_nodes(template):
+    """Copy the plain syntax nodes of a template, wildcards and types are shared."""
+    if isinstance(template, list):
+        return [_copy_syntax_nodes(child) for child in template]
+    if type(template).__module__ != ast.__name__:
+        return template
+    clone = copy.copy(template)
+    for field, value in ast.iter_fields(template):
+        setattr(clone, field, _copy_syntax_nodes(value))
+    return clone
+
+
 @functools.lru_cache(maxsize=10_000)
 def compile_template(
     source: str | Set[str] | Tuple[str, ...],
@@ -1444,6 +1457,9 @@ def compile_template(
             replacement_name = name
 
         source = source.replace("{{" + replacement_name + suffix + "}}", wildcard_placeholder_name)
+
+        # The transformer removes attributes in place, and the node may belong to a parsed file
+        template = _copy_syntax_nodes(template)
 
         template = transformer.visit(template)
         if name in {"ZeroOrOne_anything", "ZeroOrMany_anything", "OneOrMany_anything"}:
